@@ -805,6 +805,26 @@
 		if r.as_ref() != Ok(&b) { println!("DEVIATION diff_then_apply A={} B={} apply_to(A, diff(A,B)) = {:?} (the source name x of the new parameter is lost, no error)", txt(&a), txt(&b), r.as_ref().map(|m| render(m, false))); }
 		t.finish();
 	}
+	/// C04, the pairs excluded from `diff_then_apply` as a deviation: B has a parameter source name that A lacks or spells differently
+	/// (the .tinydiff format has no column for it).  Bound: method ()V m of class A with parameter 0 absent / without source name /
+	/// source name x / source name y on either side: 16 ordered pairs.  Expected by the property: apply_to(A, diff(A,B)) == B or a refusal.
+	#[test]
+	fn diff_apply_keeps_parameter_source_names() {
+		let mut t = Tally::new("diff_apply_keeps_parameter_source_names");
+		let cx = Cx::new(&[1]);
+		let shapes: Vec<Vec<PS>> = vec![vec![], vec![ps(0, None, P, None)], vec![ps(0, Some("x"), P, None)], vec![ps(0, Some("y"), P, None)]];
+		for pa in &shapes { for pb in &shapes {
+			let a = cx.universe(&[("A", vec![cs(P).m("()V", "m", P, None, pa.clone())])]).pop().unwrap();
+			let b = cx.universe(&[("A", vec![cs(P).m("()V", "m", P, None, pb.clone())])]).pop().unwrap();
+			t.at(format!("A={} B={}", txt(&a), txt(&b)).as_bytes());
+			t.case(format!("{pa:?}") != format!("{pb:?}"));
+			let (la, lb) = (load::<2, ()>(&a), load::<2, ()>(&b));
+			let Ok(d) = MappingsDiff::diff(&la, &lb) else { continue; };
+			let r = d.apply_to::<2, (), ()>(la.clone(), "a").map_err(|e| format!("{e:#}")).and_then(|m| extract(&m));
+			if let Ok(got) = &r { if got != &b { t.fail(format!("A={} B={}", txt(&a), txt(&b)), &format!("apply_to(A, diff(A,B)) = {:?}: neither B nor a refusal (parameter source name lost)", render(got, false))); } }
+		}}
+		t.finish();
+	}
 	/// the "chain" universe of `apply_is_exact_or_refused`: one level at a time (class A, its field, its method, the
 	/// method's parameter) ranges over absent / {named X, named X', unnamed} x {no comment, c, d}; everything above is named
 	fn chain_shapes() -> Vec<CS> {
@@ -1289,6 +1309,33 @@
 			if r.name.to_string() != "f1" { println!("DEVIATION remapper_consistency {} from \"s\" to \"a\" inheritance C<B<A (B not in the set): field C.f LA; -> ({}, {}), the statement gives (f1, LA1;)", txt(&m), r.name, r.desc.as_inner()); }
 		}
 		println!("NOTE remapper_consistency member_queries={queries} excluded_search_through_unnamed_class={excluded} of_which_real_code_differs_from_statement={excluded_differs}");
+		t.finish();
+	}
+
+	/// C06, the queries excluded from `remapper_consistency` as a deviation: the search for the nearest declaring super type has to pass
+	/// through a class that the mapping set does not contain ("missing intermediate classes" in the property's quantifier).
+	/// Bound: chains C < B < A and D < C < B < A where exactly the intermediate classes are missing from the set; field and method of A.
+	#[test]
+	fn super_class_search_passes_classes_outside_the_set() {
+		let mut t = Tally::new("super_class_search_passes_classes_outside_the_set");
+		for depth in [1usize, 2] {
+			let low = if depth == 1 { "C" } else { "D" };
+			let m = Cx::new(&[1, 2]).universe(&[("A", vec![cs(P).f("LA;", "f", P, None).m("(LA;)V", "m", P, None, vec![])]), (low, vec![cs(P)])]).pop().unwrap();
+			let lm = load::<3, ()>(&m);
+			let chain: Vec<(ObjClassName, IndexSet<ObjClassName>)> = if depth == 1 { vec![(oc("C"), [oc("B")].into_iter().collect()), (oc("B"), [oc("A")].into_iter().collect())] }
+				else { vec![(oc("D"), [oc("C")].into_iter().collect()), (oc("C"), [oc("B")].into_iter().collect()), (oc("B"), [oc("A")].into_iter().collect())] };
+			let inh = Inh(chain.into_iter().collect());
+			let rb = lm.remapper_b(Namespace::<3>::new(0).unwrap(), Namespace::<3>::new(1).unwrap(), &inh).unwrap();
+			let what = format!("{} from \"s\" to \"a\", inheritance {low} < .. < A with the intermediate classes not in the set", txt(&m));
+			t.at(what.as_bytes());
+			t.case(true);
+			let r = rb.map_field(oc(low).as_slice(), FieldName::try_from(JavaString::from("f")).unwrap().as_slice(), FieldDescriptor::try_from(JavaString::from("LA;")).unwrap().as_slice()).unwrap();
+			let a_named = o_map_class(&m, 0, 1, "A");
+			if r.name.to_string() == "f" { t.fail(what.clone(), &format!("field {low}.f LA; -> ({}, {}): the declaration in the super type A (named in \"a\") is not found, the fallback is answered (owner A maps to {a_named})", r.name, r.desc.as_inner())); }
+			t.case(true);
+			let r = rb.map_method(oc(low).as_slice(), MethodName::try_from(JavaString::from("m")).unwrap().as_slice(), MethodDescriptor::try_from(JavaString::from("(LA;)V")).unwrap().as_slice()).unwrap();
+			if r.name.to_string() == "m" { t.fail(what.clone(), &format!("method {low}.m (LA;)V -> ({}, {}): the declaration in the super type A is not found", r.name, r.desc.as_inner())); }
+		}
 		t.finish();
 	}
 
